@@ -147,6 +147,31 @@ func (m *Machine) bigStub(fn *ssa.Function, args []Value) (Value, bool) {
 				}
 				return out, true
 			}
+			if m.bigBytesLen >= 0 && !m.bigBytesLenUsed && b.lin != nil {
+				// case split by the driver: this run ASSUMES that the minimal big-endian encoding of the value has exactly
+				// bigBytesLen bytes (the spec lists one harness per length; together they cover every value)
+				m.bigBytesLenUsed = true
+				n := m.bigBytesLen
+				if n == 0 {
+					m.cur.pc = append(m.cur.pc, cCmp("=", b.lin, linConstI(0)))
+				} else {
+					lo := new(big.Int).Lsh(big.NewInt(1), uint(8*(n-1)))
+					hi := new(big.Int).Lsh(big.NewInt(1), uint(8*n))
+					m.cur.pc = append(m.cur.pc, cAnd(cCmp("<=", linConst(lo), b.lin), cCmp("<", b.lin, linConst(hi))))
+				}
+				arr := ArrayV{}
+				for i := 0; i < n; i++ {
+					arr.elems = append(arr.elems, m.constInt(big.NewInt(0), types.Typ[types.Uint8]))
+				}
+				out := SliceV{arr: m.newObj(arr, "bytes"), len: n, cap: n}
+				rest := b.lin
+				for i := n - 1; i >= 0; i-- {
+					q, r := m.divmod(rest, big.NewInt(256))
+					m.store(elemPtr(out, i), VInt{lin: r})
+					rest = q
+				}
+				return out, true
+			}
 			panic("big.Int.Bytes of a value whose byte length is not determined by its interval")
 		}
 		if m.bigBytesHavoc > 0 {
